@@ -78,6 +78,12 @@ def make_jobs(rnd, tier):
             if rnd.random() < 0.3: first = [["meth", 1, m2, k, 0, []], ["meth", 2, m1, None, 0, []]]
             if rnd.random() < 0.3: first = [["const", 5, ["int", 1]], ["bin", 1, "rshift", 0, 5], ["meth", 2, m2, k, 0, []]]
             add(p, n, [["input", 0, "priv", 0]] + first, [a], "width-sequence:%s(k=%d)" % (m2, k), "priv")
+        # unpacking secret bits of a wide field (moduli beyond 2^53, next to powers of two): the value has to be below the modulus
+        if p > 2 ** 200:
+            for m in (2 ** 61 - 1, 2 ** 64 - 59, 2 ** 64 + 13, 2 ** 61, 2 ** 40 + 15):
+                for v in (m - 1, m, 2 ** (m - 1).bit_length() - 1, 5):
+                    add(p, n, [["input", 0, "priv", 0], ["pack", 1, ["intmod", m], 0], ["unpack", 2, ["intmod", m], 1]], [v], "unpack-wide-field", "priv")
+                    jobs[-1]["nosolve"] = 1
         # boolean declaration of a secret through _ensurebool (LinCombBool & LinComb)
         for _ in range(per):
             a = rnd.choice([0, 1, 2, -1, 1, 0])
@@ -94,6 +100,7 @@ def make_jobs(rnd, tier):
 
 def work(arg):
     job, rec0, rec1 = arg
+    if job.get("nosolve"): return dict(status="skipped", witness=None)      # wide decompositions: correspondence with the model only
     p = job["cfg"]["p"]
     if rec1["exn"] is not None or "trace" not in rec1: return dict(status="raised-even-unchecked", exn=rec1["exn"])
     tr = rec1["trace"]
